@@ -32,7 +32,7 @@ def gen(rng, depth):
         if r < 0.9:
             return E.num(Fraction(rng.randint(1, 9), rng.choice([2, 3, 4, 7])))
         return E.num(Fraction(rng.choice(["0.5", "2.25", "0.125", "1.75"])))
-    k = rng.choice(["add", "add", "mul", "mul", "sub", "div", "pow-int", "pow-neg", "pow-half", "pow-nested", "neg",
+    k = rng.choice(["add", "add", "mul", "mul", "sub", "div", "pow-int", "pow-neg", "pow-half", "pow-nested", "pow-numbase", "neg",
                     "f", "g", "builtin", "max", "sum", "mod"])
     a, b = gen(rng, depth - 1), gen(rng, depth - 1)
     if k in ("add", "mul", "sub"):
@@ -47,6 +47,10 @@ def gen(rng, depth):
         return E.op("pow", E.sym(rng.choice(SYMS)), E.num(Fraction(rng.choice([1, 3, -1]), 2)))
     if k == "pow-nested":
         return E.op("pow", E.op("pow", E.sym(rng.choice(SYMS)), E.num(2)), E.sym(rng.choice(["y", "x"])))
+    if k == "pow-numbase":
+        # a bare negative number or fraction under a symbolic exponent (needs parentheses in front of the caret)
+        base = rng.choice([E.num(-1), E.num(-2), E.num(Fraction(2, 3)), E.num(Fraction(-1, 2)), E.num(Fraction(-3, 2)), E.num(10)])
+        return E.op("pow", base, E.sym("K"))     # K is never substituted, so the power stays real-valued (K integer)
     if k == "neg":
         return E.op("neg", a)
     if k == "f":
@@ -95,7 +99,7 @@ def emit(pairs):
         if "skip" in imp:
             items.append("([], [])")
             continue
-        if any(k in str(imp["a"]) for k in ("<const>zoo", "<const>nan", "<const>oo", "<const>-oo")):
+        if any(k in str(imp["a"]) for k in ("<const>zoo", "<const>nan", "<const>oo", "<const>-oo", "<const>I")):
             items.append("([], [])")      # not a real-valued expression (e.g. a literal division by zero): outside the property
             continue
         inex = "true" if imp.get("inexact") else "false"
